@@ -89,6 +89,7 @@ int main(int argc, char** argv) {
         case 'E': { Plan p = gen_plan(r, 'E', n_e++); run_growth(E, p, r); break; }
         case 'M': { Plan p = gen_plan(r, 'M', n_m++); run_growth(E, p, r); break; }
         case 'T': { Plan p = gen_table_plan(r); run_growth(E, p, r); break; }
+        case 'F': { Plan p = gen_first_block_plan(r); run_growth(E, p, r); break; }
         case 'S': case 'a': run_single_fault(E, r, cls, n_s++); break;
         case 'H': run_huge(E, r, hn[(size_t)k % hn.size()], hthreads, hold); break;
         default: fprintf(stderr, "unknown mode %s\n", mode.c_str()); return 2;
